@@ -154,9 +154,22 @@ func execStatic(args []string, lines [][]string) (outs []string) {
 		tree = buildStaticTree(lines)
 		defer os.RemoveAll(tree.base)
 		opts := flamego.StaticOptions{Prefix: unhx(arg(0)), Index: unhx(arg(1)), SetETag: arg(2) == "1"}
-		if spy {
+		switch {
+		case spy:
 			opts.FileSystem = spyFS{fs: http.Dir(tree.pub), names: &opened}
-		} else {
+		case arg(3) == "2":
+			// the documented default: no Directory, no FileSystem — "public" under the working directory
+			// (a link to the tree, the working directory moved next to it for the length of the session)
+			if cwd, err := os.Getwd(); err == nil {
+				if os.Symlink(tree.pub, filepath.Join(tree.base, "public")) == nil && os.Chdir(tree.base) == nil {
+					defer func() { _ = os.Chdir(cwd) }()
+				} else {
+					opts.Directory = tree.pub
+				}
+			} else {
+				opts.Directory = tree.pub
+			}
+		default:
 			opts.Directory = tree.pub
 		}
 		if arg(4) == "1" {
@@ -482,8 +495,11 @@ func staticMutate(r *rand.Rand, p string) string {
 func genStaticSession(r *rand.Rand, emit Emit, pfx, index string, nreq int, small bool) {
 	fs, out := genStaticTree(r, small)
 	spy := 1
-	if r.Intn(5) == 0 {
+	switch r.Intn(10) {
+	case 0:
 		spy = 0
+	case 1:
+		spy = 2 // StaticOptions without Directory and FileSystem: the documented default directory
 	}
 	emit("NEW static %s %s %d %d %d %d", hx(pfx), hx(index), r.Intn(2), spy, r.Intn(2), r.Intn(2))
 	for _, e := range fs {
